@@ -75,7 +75,7 @@ _T = [
     # -------------------------------------------------------------- leftrec
     ("leftrec", "no-constraint", None, "sat"),
     ("leftrec", "forall-exists-in-eq", 'forall <list> l: exists <item> i in l: i = "a"', "sat"),
-    ("leftrec", "mexpr-two-bound-smt",
+    ("leftrec", "mexpr-exists-recursive-bound",
      'exists <list> l="{<list> rest},{<item> last}": (last = "b" and str.len(rest) > 1)', "sat"),
     ("leftrec", "count-literal", 'count(start, "<item>", "3")', "sat"),
     ("leftrec", "smt-strlen-start", 'str.len(start) = 5', "sat"),
@@ -91,12 +91,12 @@ _T = [
     ("leftrec", "consecutive", 'exists <item> i1: exists <item> i2: '
      '(consecutive(i1, i2) and i1 = "a" and i2 = "b")', "sat"),
     ("leftrec", "level-eq", 'forall <item> i1: forall <item> i2: level("EQ", "<list>", i1, i2)', "sat"),
-    ("leftrec", "unsat-strlen-parity", 'str.len(start) = 2', "unsat"),
+    ("leftrec", "unsat-strlen-eq", 'str.len(start) = 2', "unsat"),
     ("leftrec", "unsat-count-zero", 'count(start, "<item>", "0")', "unsat"),
     # ------------------------------------------------------------- rightrec
     ("rightrec", "no-constraint", None, "sat"),
     ("rightrec", "forall-eq", 'forall <item> i: i = "a"', "sat"),
-    ("rightrec", "mexpr-two-bound-smt",
+    ("rightrec", "mexpr-exists-recursive-bound",
      'exists <list> l="{<item> first},{<list> rest}": (first = "b" and str.len(rest) > 1)', "sat"),
     ("rightrec", "count-literal", 'count(start, "<item>", "2")', "sat"),
     ("rightrec", "different-position-eq",
@@ -133,12 +133,12 @@ _T = [
     ("ambig", "smt-strlen-start", 'str.len(start) = 5', "sat"),
     ("ambig", "count-literal", 'count(start, "<e>", "5")', "sat"),
     ("ambig", "forall-strlen-upper", 'forall <e> e: str.len(e) <= 3', "sat"),
-    ("ambig", "mexpr-two-bound-smt",
+    ("ambig", "mexpr-exists-recursive-bound",
      'exists <e> e="{<e> l}+{<e> r}": (str.len(l) = 3 and r = "x")', "sat"),
     ("ambig", "exists-in-different-position",
      'exists <e> e1: exists <e> e2 in e1: (different_position(e1, e2) and str.len(e2) = 3)', "sat"),
-    ("ambig", "level-ge", 'forall <e> e1: forall <e> e2: level("GE", "<e>", e1, e2)', None),
-    ("ambig", "unsat-strlen-parity", 'str.len(start) = 2', "unsat"),
+    ("ambig", "forall-exists-in-same-position", 'forall <e> e1: exists <e> e2 in e1: same_position(e1, e2)', "sat"),
+    ("ambig", "unsat-strlen-eq", 'str.len(start) = 2', "unsat"),
     ("ambig", "smt-indexof", 'str.indexof(start, "+", 0) = 1', "sat"),
     ("ambig", "smt-replace", 'str.replace(start, "+", "-") = "x-x"', "sat"),
     # ------------------------------------------------------------------ num
@@ -179,7 +179,7 @@ _T = [
      'forall <id> i: (str.in_re i ((_ re.loop 2 2) (re.range "a" "z")))', "sat"),
     ("multichar", "mexpr-forall-keywords",
      'forall <stmt> s="if {<cond> c} then <stmt> else <stmt>": c = "true"', "sat"),
-    ("multichar", "unsat-exists-strlen", 'exists <id> i: str.len(i) = 4', "unsat"),
+    ("multichar", "unsat-exists-strlen-eq", 'exists <id> i: str.len(i) = 4', "unsat"),
     # ----------------------------------------------------------------- wide
     ("wide", "forall-eq-wide-node", 'forall <c> c in start: c = "x"', "sat"),
     # --------------------------------------------------------------- xmlish
@@ -194,7 +194,7 @@ _T = [
     ("xmlish", "exists-inside-eq",
      'exists <xml> x: exists <text> t: (inside(t, x) and t = "tt")', "sat"),
     ("xmlish", "forall-exists-in-eq", 'forall <xml> x: exists <id> i in x: i = "b"', "sat"),
-    ("xmlish", "unsat-strlen-small", 'str.len(start) = 6', "unsat"),
+    ("xmlish", "unsat-strlen-eq", 'str.len(start) = 6', "unsat"),
     # --------------------------------------------------------------- csvish
     ("csvish", "no-constraint", None, "sat"),
     ("csvish", "exists-int-forall-count",
@@ -220,13 +220,69 @@ _T = [
      'exists <pair> p1: exists <pair> p2: (before(p1, p2) and p1 = "k=0" and p2 = "j=1")', "sat"),
     ("altstart", "forall-forall-before-neq",
      'forall <key> k1: forall <key> k2: (not before(k1, k2) or not k1 = k2)', "sat"),
+    ("altstart", "level-ge", 'forall <key> k: forall <val> v: level("GE", "<pair>", k, v)', "sat"),
     ("altstart", "unsat-exists-toint-gt", 'exists <val> v: str.to.int(v) > 1', "unsat"),
+    # ------------------------------------------------------------------------
+    # One template per remaining operator of the lexer grammar (islaspec.rst,
+    # SMT_NONBINARY_OP / SMT_INFIX_RE_STR / XOR / IMPLIES_SMT / iff / implies)
+    # and a few SMT-LIB operators only reachable in S-expression syntax.
+    ("num", "op-re.plus", 'forall <digits> d: str.in_re(d, re.+(str.to_re("1")))', "sat"),
+    ("num", "op-re.star-range", 'forall <digits> d: str.in_re(d, re.*(re.range("0", "2")))', "sat"),
+    ("num", "op-re.all", 'forall <digit> d: str.in_re(d, re.all)', "sat"),
+    ("num", "op-re.allchar", 'forall <digit> d: str.in_re(d, re.allchar)', "sat"),
+    ("rightrec", "op-str.replace_all", 'str.replace_all(start, "a", "b") = "b,b"', "sat"),
+    ("rightrec", "op-str.replace_re", 'str.replace_re(start, re.range("a", "a"), "b") = "b,b"', "sat"),
+    ("rightrec", "op-str.replace_re_all", 'str.replace_re_all(start, re.range("a", "a"), "b") = "b,b"', "sat"),
+    ("rightrec", "op-re.comp", 'forall <item> i: str.in_re(i, re.comp(str.to_re("a")))', "sat"),
+    ("rightrec", "op-re.diff", 'forall <item> i: str.in_re(i, re.diff(re.range("a", "b"), str.to_re("a")))', "sat"),
+    ("rightrec", "op-re.inter",
+     'forall <item> i: (str.in_re i (re.inter (re.range "a" "b") (re.range "b" "c")))', "sat"),
+    ("num", "op-str.is_digit", 'forall <digit> d: str.is_digit(d)', "sat"),
+    ("rightrec", "unsat-op-str.is_digit", 'exists <item> i: str.is_digit(i)', "unsat"),
+    ("rightrec", "op-str.to_code", 'forall <item> i: str.to_code(i) = 97', "sat"),
+    ("rightrec", "op-str.from_code", 'forall <item> i: i = str.from_code(98)', "sat"),
+    ("num", "op-str.from_int", 'forall <digit> d: d = str.from_int(2)', "sat"),
+    ("rightrec", "op-str.concat", 'forall <item> i: i str.++ "x" = "ax"', "sat"),
+    ("rightrec", "op-str.le", 'forall <item> i: i str.<= "a"', "sat"),
+    ("rightrec", "op-xor", 'forall <item> i: (i = "a" xor str.len(start) = 1)', "sat"),
+    ("rightrec", "op-smt-implies", 'forall <item> i: (=> (= i "a") (= (str.len start) 1))', "sat"),
+    ("rightrec", "op-implies", 'forall <item> i: (i = "a" implies str.len(start) = 1)', "sat"),
+    ("rightrec", "op-iff", 'forall <item> i: (i = "a" iff str.len(start) = 1)', "sat"),
+    ("num", "op-ite", 'forall <digit> d: (= (ite (= d "1") 1 2) 1)', "sat"),
+    ("rightrec", "op-distinct", 'forall <item> i: (distinct i "b")', "sat"),
+    ("num", "op-int-comparisons", 'forall <digit> d: (str.to.int(d) >= 1 and str.to.int(d) <= 2 and '
+     'str.to.int(d) > 0 and str.to.int(d) < 9)', "sat"),
 ]
 
 TEMPLATES: List[Dict[str, Any]] = [
     {"tid": f"{g}:{cls}", "grammar": g, "cls": cls, "text": text, "expect": exp}
     for (g, cls, text, exp) in _T
 ]
+
+_STRUCT = ("before", "after", "inside", "direct-child", "same-position", "different-position", "nth",
+           "consecutive", "level")
+_SMT = ("smt", "strlen", "toint", "suffixof", "prefixof", "contains", "inre", "int-gt", "int-eq")
+
+
+def family(cls: str) -> str:
+    """Coarse template class used in signatures (feature group of the template)."""
+    c = cls[6:] if cls.startswith("unsat-") else cls
+    if c == "no-constraint":
+        return "no-constraint"
+    if c.startswith("mexpr"):
+        return "match-expression"
+    if c.startswith("xpath"):
+        return "xpath"
+    if "count" in c:
+        return "count"
+    if any(k in c for k in _STRUCT):
+        return "structural-predicate"
+    if c.startswith("op-"):
+        return "smt-operator-" + c[3:]
+    if any(k in c for k in _SMT):
+        return "smt-atom"
+    return "tree-quantifier"
+
 
 #: inner nonterminal used for the ``start_symbol`` setting, per grammar
 INNER_START: Dict[str, str] = {
@@ -429,11 +485,17 @@ def check_tree(case: Dict[str, Any], tree, formula, eval_budget_s: int = 20) -> 
     out["nodes"] = reftree.ref_size(tree)
     out["open"] = reftree.ref_open(tree)
     out["valid"] = reftree.ref_valid(grammar, tree, root)
+    out["root"] = tree.value
+    out["wrapped"] = None
+    if not out["valid"] and root != "<start>" and tree.value == "<start>" and tree.children is not None \
+            and len(tree.children) == 1 and reftree.ref_valid(grammar, tree.children[0], root):
+        # the requested start symbol sits below an extra <start> node
+        out["wrapped"] = "valid-under-<start>" if reftree.ref_valid(grammar, tree, "<start>") else "not-a-rule"
     out["member"] = reftree.ref_member(grammar, s, root) if len(s) <= 200 else None
     out["eval"] = None
     out["exact"] = None
     out["eval_note"] = None
-    if out["open"] or not out["valid"]:
+    if out["open"] or (not out["valid"] and out["wrapped"] != "valid-under-<start>"):
         out["eval_note"] = "not evaluated: tree open or not a derivation tree"
         out["struct"] = struct_to_json(tree)
         return out
@@ -543,6 +605,11 @@ def _pool_worker(conn, func_module: str, func_name: str):
 
     warnings.filterwarnings("ignore")
     signal.signal(signal.SIGINT, signal.SIG_IGN)
+    if not os.environ.get("C01_WORKER_OUTPUT"):
+        # z3 prints "(incomplete (theory seq))" from C and ISLa logs "could not be decided" lines
+        devnull = os.open(os.devnull, os.O_WRONLY)
+        os.dup2(devnull, 1)
+        os.dup2(devnull, 2)
     func = getattr(importlib.import_module(func_module), func_name)
     while True:
         try:
